@@ -62,6 +62,9 @@ func run(c *hc.Ctx) {
 	if sel("layout") {
 		genLayout(c)
 	}
+	if sel("textline") {
+		genTextLine(c)
+	}
 }
 
 // ---------------------------------------------------------------------------------------------
